@@ -66,7 +66,8 @@ def run(ctx):
         "within a fixed budget or charged to a transaction that finished meanwhile has at most N((N+F)(L+1)+L+1) steps, keeps the discipline, and cannot stop before every request is answered; "
         "the charging hypothesis is CHECKED on every request of every sequential run (validator retriesCharged: own restarts beyond one need a commit in between)",
         "seq -locks: all scenarios (renames with the four inodes in every relative order, directories numbered above their files, stale handles, cold caches after restart) and random "
-        "sequences, every transaction's lock/commit events validated by the Lean driver; conc: clients on shared names with yields injected at lock and commit events, same validation + a 15 s no-progress watchdog",
+        "sequences, every transaction's lock/commit events validated by the Lean driver; conc: clients on shared names with yields injected at lock and commit events, same validation + a 15 s no-progress watchdog; "
+        "probe: directed histories under a watchdog — the recorded dangling-'..' finding, and 80 REMOVEs of large sparse files while every background shrinker is held at the start of its first transaction",
         ["fair scheduling of sync.Cond waiters in lockmap", "a creating operation's second acquisition is taken to be its own fresh allocation",
          "M10c has no fresh-allocation requests (those are covered by ordered_no_deadlock); in concurrent runs the commits a retry is charged to are other clients' and are not validated, only the watchdog applies"],
         pending=[],
